@@ -182,6 +182,16 @@ func classifyPanic(p interface{}, fr *frame) interface{} {
 		}
 		return x
 	case targetPanic:
+		if fr.i.res != nil {
+			d := 0
+			for f := fr; f != nil; f = f.caller {
+				d++
+			}
+			if d > fr.i.res.panicDepth {
+				fr.i.res.panicDepth = d
+				fr.i.res.lastPanicSite = "(panic: " + truncStr(toString(x.v), 200) + ") at " + fr.i.targetStack(fr, 14)
+			}
+		}
 		return x
 	case runtime.Error:
 		msg := x.Error()
